@@ -141,6 +141,78 @@ def factory_vd(ns, props, relational=False, **kw):
     return f
 
 
+def factory_vd_inplace(ns, props, **kw):
+    """two calls with the SAME trusted envelope object whose content is replaced in place between the calls
+    (a client that updates its trusted metadata object): the second verdict must follow the new content"""
+    def f(eng):
+        import conda_content_trust.authentication as A
+        from harness import lemmas
+        ovr = lemmas.overrides(eng)
+        ovr.update(dmt.checker_override())
+
+        def harness(eng):
+            tpA = build_vd(eng, ns + 'a', **kw)
+            tpB = build_vd(eng, ns + 'b', **kw)
+            freeze(tpA['Um'])
+            eng.path_local['stdout_enc'] = tpA['enc']
+            it = Interp(eng, ovr)
+            Tm = tpA['Tm']
+            outs, ors = [], []
+            for T_ in (tpA['T'], tpB['T']):
+                Tm['signed'] = T_['signed']
+                tp = dict(tpA, T=T_)
+                outs.append(run_call(it, A.verify_delegation, [tpA['namev'], tpA['Um'], Tm], {'gpg': tpA['gpg']}))
+                ors.append(oracle_vd(it, tp))
+            m = path_model(eng)
+            if m is None:
+                return None
+
+            def mk(mm):
+                Tm['signed'] = tpA['T']['signed']
+                c1 = mk_case_vd(eng, tpA, mm)
+                Tm['signed'] = tpB['T']['signed']
+                c2 = mk_case_vd(eng, tpA, mm)
+                return dict(scenario='vd_inplace', name=c1['name'], U=c1['U'], gpg=c1['gpg'], T1=c1['T'], T2=c2['T'], env=c2['env'])
+            obs = []
+            for i, (out, o) in enumerate(zip(outs, ors)):
+                if is_ret(out):
+                    obs.append(oblige(eng, f'call {i + 1} (trusted metadata object updated in place between calls) accepted => the CURRENT trusted content justifies it', z3.Not(o['accept_lib']), mk))
+                else:
+                    obs.append(oblige(eng, f'call {i + 1} (trusted metadata object updated in place between calls) rejected => the current trusted content does not justify acceptance', o['accept_strict'], mk))
+            w = mk(m)
+            w['predicted'] = [predicted(o) for o in outs]
+            return record(eng, outs[1], obs, w, ['/'.join('A' if is_ret(o) else 'R' for o in outs)], okey_='/'.join(okey(o) for o in outs))
+        return harness
+    return f
+
+
+def run_vd_inplace(case):
+    import conda_content_trust.authentication as A
+    env = case.get('env', {})
+    CC.setup_valid_table(env.get('valid', []))
+    name, U, gpg = from_wire(case['name']), from_wire(case['U']), from_wire(case['gpg'])
+    T1, T2 = from_wire(case['T1']), from_wire(case['T2'])
+    outs = []
+    with CC.time_stub(env.get('iso')), CC.stdout_as(env.get('stdout_enc')):
+        Tm = T1
+        outs.append(CC.outcome_of(A.verify_delegation, name, U, Tm, gpg=gpg))
+        Tm.clear()
+        Tm.update(T2)           # same object, new content
+        outs.append(CC.outcome_of(A.verify_delegation, name, U, Tm, gpg=gpg))
+    return {'outcomes': outs}
+
+
+def judge_vd_inplace(case, obs, props):
+    if 'outcomes' not in obs:
+        return None
+    for i, (oc, tw) in enumerate(zip(obs['outcomes'], (case['T1'], case['T2']))):
+        single = dict(name=case['name'], U=case['U'], T=tw, gpg=case['gpg'], env=case['env'])
+        why = judge_vd(single, {'outcome': oc, 'unchanged': True, 'stripped': None}, props)
+        if why:
+            return f'call {i + 1} with the trusted metadata object updated in place: {why} -- the verdict does not follow the current trusted content'
+    return None
+
+
 def run_vd(case):
     import conda_content_trust.authentication as A
     env = case.get('env', {})
